@@ -83,8 +83,19 @@ impl CanonStreamMap {
     }
 
     pub(crate) fn as_jvalue(&self) -> JValue {
-        let json_map: air_interpreter_value::Map<JsonString, JValue> =
-            self.map.iter().map(|(k, v)| (k.to_key(), v.as_jvalue())).collect();
+        // Two different keys may render to the same JSON key (the string "1" and the number 1). The key groups are taken in
+        // the order in which the keys first occur among the pairs, so that the group that survives such a clash is a
+        // function of the data and not of the hash map's iteration order.
+        let mut json_map: air_interpreter_value::Map<JsonString, JValue> = <_>::default();
+        let mut met_keys = std::collections::HashSet::new();
+        for kvpair_obj in &self.values {
+            let Some(key) = StreamMapKey::from_kvpair_owned(kvpair_obj) else { continue };
+            if let Some(canon_stream) = self.map.get(&key) {
+                if met_keys.insert(key.clone()) {
+                    json_map.insert(key.to_key(), canon_stream.as_jvalue());
+                }
+            }
+        }
         json_map.into()
     }
 
